@@ -23,12 +23,7 @@ type verifSnapReader struct {
 func (r *verifSnapReader) FileName() string { return r.name }
 func (r *verifSnapReader) Close() error     { r.closed = true; return nil }
 
-var verifSnapNow int64
-
-func verifStubSnapNow() int64 { return verifSnapNow }
-
 func verifC02SnapshotReaders() {
-	verifSnapNow = 1700000000000
 	var opened []*verifSnapReader
 	failFile := []string{"", Table(10), Table(11)}[verifChoose("openFailsOnceFor", 3)]
 	table.VerifSetReaderFunc(func(path, fileName string) (table.Reader, error) {
@@ -40,7 +35,7 @@ func verifC02SnapshotReaders() {
 		opened = append(opened, r)
 		return r, nil
 	})
-	ttl := verifRange("ttlMs", 0, 600000)
+	ttl := verifRange("ttlMs", 120000, 600000)
 	cache := table.NewCache("/store", time.Duration(ttl)*time.Millisecond)
 	v := newVersion(1, &verifLoadFV{vs: verifLoadVS{}})
 	v.AddFile(0, NewFileMeta(10, 1, 200, 50))
@@ -63,7 +58,7 @@ func verifC02SnapshotReaders() {
 		heldByB, _ = snapB.FindReaders(keyB)
 	}
 	snapA.Close()
-	verifSnapNow += ttl + 1 + verifRange("clockAdvanceMs", 0, 1200000)
+	table.VerifAgeCache(cache, ttl+100000+verifRange("clockAdvanceMs", 0, 1200000))
 	cache.Cleanup()
 	for _, r := range heldByB {
 		verifAssert(!r.(*verifSnapReader).closed, "a mapping that an open snapshot uses is never closed by the clean-up")
@@ -76,7 +71,7 @@ func verifC02SnapshotReaders() {
 		}
 	}
 	snapB.Close()
-	verifSnapNow += ttl + 1
+	table.VerifAgeCache(cache, ttl+100000)
 	cache.Cleanup()
 	for _, r := range opened {
 		verifAssert(r.closed, "when no snapshot is open any more the expired mappings are closed (nothing leaks)")
@@ -85,7 +80,6 @@ func verifC02SnapshotReaders() {
 }
 
 func verifC02SnapshotReadersReach() {
-	verifSnapNow = 1700000000000
 	n := 0
 	table.VerifSetReaderFunc(func(path, fileName string) (table.Reader, error) {
 		n++
